@@ -1,8 +1,18 @@
 //! Replays builder ASTs on the real builder API (PROTOCOL.md §4.3).
 //!
-//! The concrete builder is handed to a [`Visitor`], so that `calculate_size` / `write_into` /
-//! `get_padding` / `add_packet` / `PacketBuilder::from` are always called on the crate's own
-//! types (no wrapper in between).
+//! The concrete builder is handed to a [`Visitor`], so that `add_packet` / `PacketBuilder::from`
+//! are always called on the crate's own types (no wrapper in between).
+//!
+//! `calculate_size()` / `get_padding()` / `write_into()` / `write_into_unchecked()` are called
+//! the way a user of the crate writes them: with METHOD-CALL SYNTAX ON THE CONCRETE BUILDER TYPE
+//! (`builder.write_into(&mut buf)`), never on a type parameter `T: RtcpPacketWriter`. In generic
+//! code those calls always resolve to the trait methods (`RtcpPacketWriterExt::write_into`); on
+//! the concrete type an inherent `pub fn write_into` (a fast path a later version of the crate
+//! may add to e.g. `SdesBuilder`) shadows the trait method and is what a user gets. The calls
+//! live in [`Concrete`], implemented once per concrete builder type by `impl_concrete!` (the
+//! macro body contains `b.calculate_size()`, `b.get_padding()`, `b.write_into(buf)` with `b` of
+//! the concrete type), and in `probed!`, expanded at the concrete call sites. Against today's
+//! crate, where those methods are the trait's, both spellings are the same call.
 
 use std::cell::Cell;
 
@@ -12,36 +22,111 @@ use rtcp_types::{
     PayloadFeedback, PayloadFeedbackBuilder, Pli, PliBuilder, ReceiverReport,
     ReceiverReportBuilder, ReportBlock, ReportBlockBuilder, Rpsi, RpsiBuilder, Sdes, SdesBuilder,
     SdesChunk, SdesChunkBuilder, SdesItem, SdesItemBuilder, SenderReport, SenderReportBuilder, Sli,
-    SliBuilder, TransportFeedback, TransportFeedbackBuilder, Unknown, UnknownBuilder,
+    RtcpWriteError, SliBuilder, TransportFeedback, TransportFeedbackBuilder, Unknown,
+    UnknownBuilder,
 };
 
 use crate::ast::*;
 use crate::bufs::{Bufs, Long};
-use crate::custom::{Custom, UnitPkt};
+use crate::custom::{Custom, CustomBuilder, UnitPkt};
 use crate::render::*;
 use crate::view::dump_kind_again;
 
 // ---------------------------------------------------------------------------------------------
-// `(probe)`
+// the crate calls of the protocol, on the concrete builder types
 
-/// The `(probe)` pseudo-call: `calculate_size()` on the builder as configured so far and, if
-/// that is `Ok(n)` with `n <= 1 << 20`, `write_into` an `n`-byte buffer; each under
-/// `catch_unwind`, results discarded. The builder is only borrowed: the caller goes on applying
-/// the remaining calls to it.
-fn probe<T: RtcpPacketWriter>(t: &T) {
-    const MAX: usize = 1 << 20;
-    if let Some(Ok(n)) = guard(|| t.calculate_size()) {
-        if n <= MAX {
-            let mut buf = vec![0x5au8; n];
-            let _ = guard(|| t.write_into(&mut buf));
-        }
-    }
+/// The calls a request makes on a packet-level builder. `c_*`: method-call syntax on the
+/// concrete type (an inherent method of that name wins over the trait's); `t_*`: the same call
+/// through the trait path, spelled out (`w<j>.trait_same`, `size_trait_same`). Object safe: the
+/// protocol code works on `&dyn Concrete`, the vtable leads to the per-type bodies below.
+pub trait Concrete: RtcpPacketWriter {
+    /// `b.calculate_size()`
+    fn c_size(&self) -> Result<usize, RtcpWriteError>;
+    /// `b.get_padding()`
+    fn c_getpad(&self) -> Option<u8>;
+    /// `b.write_into(buf)`
+    fn c_write(&self, buf: &mut [u8]) -> Result<usize, RtcpWriteError>;
+    /// `b.write_into_unchecked(buf)`
+    fn c_unchecked(&self, buf: &mut [u8]) -> usize;
+    /// `RtcpPacketWriter::calculate_size(&b)`
+    fn t_size(&self) -> Result<usize, RtcpWriteError>;
+    /// `RtcpPacketWriterExt::write_into(&b, buf)`
+    fn t_write(&self, buf: &mut [u8]) -> Result<usize, RtcpWriteError>;
 }
 
-/// `$b` after `(probe)`.
+/// `impl Concrete for <concrete builder type>`: expanded once per type, so that every method
+/// call below has a receiver of that concrete type (`b: &AppBuilder<'a>`, ..), never a type
+/// parameter.
+macro_rules! impl_concrete {
+    ($([$($g:tt)*] $t:ty;)*) => {$(
+        impl<$($g)*> Concrete for $t {
+            fn c_size(&self) -> Result<usize, RtcpWriteError> {
+                let b: &$t = self;
+                b.calculate_size()
+            }
+            fn c_getpad(&self) -> Option<u8> {
+                let b: &$t = self;
+                b.get_padding()
+            }
+            fn c_write(&self, buf: &mut [u8]) -> Result<usize, RtcpWriteError> {
+                let b: &$t = self;
+                b.write_into(buf)
+            }
+            fn c_unchecked(&self, buf: &mut [u8]) -> usize {
+                let b: &$t = self;
+                b.write_into_unchecked(buf)
+            }
+            fn t_size(&self) -> Result<usize, RtcpWriteError> {
+                let b: &$t = self;
+                rtcp_types::RtcpPacketWriter::calculate_size(b)
+            }
+            fn t_write(&self, buf: &mut [u8]) -> Result<usize, RtcpWriteError> {
+                let b: &$t = self;
+                rtcp_types::RtcpPacketWriterExt::write_into(b, buf)
+            }
+        }
+    )*};
+}
+
+impl_concrete! {
+    ['a] AppBuilder<'a>;
+    ['a] ByeBuilder<'a>;
+    [] ReceiverReportBuilder;
+    [] SenderReportBuilder;
+    ['a] SdesBuilder<'a>;
+    ['a] UnknownBuilder<'a>;
+    ['a] TransportFeedbackBuilder<'a>;
+    ['a] PayloadFeedbackBuilder<'a>;
+    ['a] PacketBuilder<'a>;
+    ['a] rtcp_types::CompoundBuilder<'a>;
+    [] NackBuilder;
+    [] FirBuilder;
+    [] SliBuilder;
+    ['a] RpsiBuilder<'a>;
+    [] PliBuilder;
+    ['a, const PT: u8, const MIN: usize] CustomBuilder<'a, PT, MIN>;
+    [const PT: u8] UnitPkt<PT>;
+}
+
+// ---------------------------------------------------------------------------------------------
+// `(probe)`
+
+/// Largest size a `(probe)` writes.
+const PROBE_MAX: usize = 1 << 20;
+
+/// `$b` after `(probe)`: `calculate_size()` on the builder as configured so far and, if that is
+/// `Ok(n)` with `n <= 1 << 20`, `write_into` an `n`-byte buffer; each under `catch_unwind`,
+/// results discarded. The builder is only borrowed: the caller goes on applying the remaining
+/// calls to it. Expanded where `$b` is a local of the concrete builder type (method-call syntax
+/// on the concrete type, see the module documentation).
 macro_rules! probed {
     ($b:ident) => {{
-        probe(&$b);
+        if let Some(Ok(n)) = guard(|| $b.calculate_size()) {
+            if n <= PROBE_MAX {
+                let mut buf = vec![0x5au8; n];
+                let _ = guard(|| $b.write_into(&mut buf));
+            }
+        }
         $b
     }};
 }
@@ -349,12 +434,12 @@ impl<'r> Ctx<'r> {
 /// Receives the concrete builder of a whole packet.
 trait Visitor<'r>: Sized {
     type Out;
-    fn visit<T: RtcpPacketWriter + 'r>(self, t: T) -> Self::Out;
+    fn visit<T: Concrete + 'r>(self, t: T) -> Self::Out;
 }
 
 /// One of the eight builders `PacketBuilder` can be made `from`.
-trait Basic<'r>: RtcpPacketWriter + 'r {
-    type Pb: RtcpPacketWriter + 'r;
+trait Basic<'r>: Concrete + 'r {
+    type Pb: Concrete + 'r;
     fn into_pb(self) -> Self::Pb;
 }
 
@@ -420,7 +505,7 @@ struct AddTo<'r>(rtcp_types::CompoundBuilder<'r>);
 
 impl<'r> Visitor<'r> for AddTo<'r> {
     type Out = rtcp_types::CompoundBuilder<'r>;
-    fn visit<T: RtcpPacketWriter + 'r>(self, t: T) -> Self::Out {
+    fn visit<T: Concrete + 'r>(self, t: T) -> Self::Out {
         self.0.add_packet(t)
     }
 }
@@ -553,41 +638,65 @@ fn fill_buf(buf: &mut [u8], fill: Fill) {
     }
 }
 
+/// A `write_into` of the request's builder, as a closure created where the builder has its
+/// concrete type.
+type WriteFn<'f> = &'f dyn Fn(&mut [u8]) -> Result<usize, RtcpWriteError>;
+
 /// The `w<j>.*` keys. Every `(N FILL)` buffer is the prefix `tx[..N]` of the long-lived output
 /// buffer (PROTOCOL.md §7), filled with FILL: every write of every request goes to the same
-/// address. After a successful write the same builder object writes the same (corrupted) slice
-/// a second time: `w<j>.rewrite_same`.
+/// address. `write` is the concrete-type call `b.write_into(buf)`. After a successful write the
+/// same builder object writes the same (corrupted) slice a second time: `w<j>.rewrite_same`.
+/// Then, unless the first write panicked, `write_trait` (the trait path
+/// `RtcpPacketWriterExt::write_into(&b, ..)`; `None` for chunk / item builders, whose
+/// `write_into` is inherent only) writes a fresh copy of the buffer as it was BEFORE the first
+/// write: `w<j>.trait_same`.
 fn write_keys(
     out: &mut Out,
     tx: &mut Long,
     bufs: &[(usize, Fill)],
-    mut write: impl FnMut(&mut [u8]) -> Result<usize, rtcp_types::RtcpWriteError>,
+    write: WriteFn,
+    write_trait: Option<WriteFn>,
 ) {
     for (j, (len, fill)) in bufs.iter().enumerate() {
         let buf = tx.prefix(*len);
         fill_buf(buf, *fill);
         let r = guard(|| write(&mut *buf));
         out.kv("", &format!("w{j}.res"), &wres(&r));
-        if r.is_some() {
-            out.kv("", &format!("w{j}.buf"), &hex(buf));
+        if r.is_none() {
+            continue;
         }
+        out.kv("", &format!("w{j}.buf"), &hex(buf));
+        // what the concrete-type call left in the buffer
+        let first = buf.to_vec();
         if let Some(Ok(n)) = r {
-            let verdict = rewrite_same(buf, n, &mut write);
+            let verdict = rewrite_same(buf, &first, n, write);
             out.kv("", &format!("w{j}.rewrite_same"), &verdict);
+        }
+        if let Some(write_trait) = write_trait {
+            let verdict = trait_same(*len, *fill, &r, &first, write_trait);
+            out.kv("", &format!("w{j}.trait_same"), &verdict);
         }
     }
 }
 
+/// `i` / `none`: the index of the first byte in which two buffers of equal length differ.
+fn first_diff(a: &[u8], b: &[u8]) -> Option<usize> {
+    a.iter().zip(b.iter()).position(|(x, y)| x != y)
+}
+
+fn diff_str(d: Option<usize>) -> String {
+    match d {
+        Some(i) => i.to_string(),
+        None => "none".to_string(),
+    }
+}
+
 /// `w<j>.rewrite_same` (PROTOCOL.md §4.3): `buf` holds what a first `write_into` returning
-/// `Ok(n)` left in it. Bytes `[8..n)` are flipped in place and the same builder object writes
-/// the same slice again: it has to return `Ok(n)` and to leave the same bytes as the first time
-/// (a writer that believes the buffer "already holds the packet" does not).
-fn rewrite_same(
-    buf: &mut [u8],
-    n: usize,
-    write: &mut impl FnMut(&mut [u8]) -> Result<usize, rtcp_types::RtcpWriteError>,
-) -> String {
-    let first = buf.to_vec();
+/// `Ok(n)` left in it (`first` is a copy of that). Bytes `[8..n)` are flipped in place and the
+/// same builder object writes the same slice again: it has to return `Ok(n)` and to leave the
+/// same bytes as the first time (a writer that believes the buffer "already holds the packet"
+/// does not).
+fn rewrite_same(buf: &mut [u8], first: &[u8], n: usize, write: WriteFn) -> String {
     let end = n.min(buf.len());
     if end > 8 {
         for x in &mut buf[8..end] {
@@ -595,16 +704,33 @@ fn rewrite_same(
         }
     }
     let r = guard(|| write(&mut *buf));
-    let diff = first.iter().zip(buf.iter()).position(|(a, b)| a != b);
+    let diff = first_diff(first, buf);
     match (&r, diff) {
         (Some(Ok(m)), None) if *m == n => "true".to_string(),
-        _ => {
-            let at = match diff {
-                Some(i) => i.to_string(),
-                None => "none".to_string(),
-            };
-            format!("false:{}:{at}", wres(&r))
-        }
+        _ => format!("false:{}:{}", wres(&r), diff_str(diff)),
+    }
+}
+
+/// `w<j>.trait_same` (PROTOCOL.md §4.3): the write the concrete-type call `b.write_into(buf)`
+/// made (result `concrete`, buffer afterwards `first`) is repeated through the trait path,
+/// `RtcpPacketWriterExt::write_into(&b, &mut copy)`, on a fresh copy of the ORIGINAL buffer
+/// contents (`len` bytes filled as `fill`, in a `Vec` of its own): result and resulting buffer
+/// have to be the same. An inherent `write_into` that shadows the trait method on the concrete
+/// type and does something else shows up here (and in the keys of the concrete-type call).
+fn trait_same(
+    len: usize,
+    fill: Fill,
+    concrete: &Option<Result<usize, RtcpWriteError>>,
+    first: &[u8],
+    write_trait: WriteFn,
+) -> String {
+    let mut copy = make_buf(len, fill);
+    let r = guard(|| write_trait(&mut copy));
+    let diff = first_diff(first, &copy);
+    if r == *concrete && diff.is_none() {
+        "true".to_string()
+    } else {
+        format!("false:{}:{}", wres(&r), diff_str(diff))
     }
 }
 
@@ -622,51 +748,68 @@ struct Run<'o> {
 impl<'r, 'o> Visitor<'r> for Run<'o> {
     type Out = ();
 
-    fn visit<T: RtcpPacketWriter + 'r>(self, t: T) {
+    fn visit<T: Concrete + 'r>(self, t: T) {
+        // every call below goes through `Concrete`: method-call syntax on the concrete type
+        self.run(&t)
+    }
+}
+
+impl<'o> Run<'o> {
+    fn run(self, t: &dyn Concrete) {
         let out = self.out;
-        let size = guard(|| t.calculate_size());
+        let size = guard(|| t.c_size());
         out.kv("", "size", &wres(&size));
-        let getpad = match guard(|| t.get_padding()) {
+        let getpad = match guard(|| t.c_getpad()) {
             Some(p) => opt_pad(p),
             None => "panic".to_string(),
         };
         out.kv("", "getpad", &getpad);
+        // the same size query through the trait path
+        let size_trait = guard(|| t.t_size());
+        let same = if size_trait == size {
+            "true".to_string()
+        } else {
+            format!("false:{}", wres(&size_trait))
+        };
+        out.kv("", "size_trait_same", &same);
         if self.size_only {
             return;
         }
 
         let Bufs { rx, tx, .. } = self.io;
+        let write: WriteFn = &|buf| t.c_write(buf);
+        let write_trait: WriteFn = &|buf| t.t_write(buf);
         if self.rt_first {
             // the keys are the same; the last `write_into` of the request is then the one into
             // the last `bufs` entry
             let mut rt = Out::new();
-            round_trip(&mut rt, rx, tx, self.rt, &size, &t);
-            write_keys(out, tx, self.bufs, |buf| t.write_into(buf));
+            round_trip(&mut rt, rx, tx, self.rt, &size, write);
+            write_keys(out, tx, self.bufs, write, Some(write_trait));
             out.buf.push_str(&rt.buf);
         } else {
-            write_keys(out, tx, self.bufs, |buf| t.write_into(buf));
-            round_trip(out, rx, tx, self.rt, &size, &t);
+            write_keys(out, tx, self.bufs, write, Some(write_trait));
+            round_trip(out, rx, tx, self.rt, &size, write);
         }
     }
 }
 
 /// The `rt.*` keys (PROTOCOL.md §4.3). The round trip writes to the long-lived output buffer as
-/// well; what it wrote is received like every other parser input: copied to the start of the
-/// receive buffer.
-fn round_trip<T: RtcpPacketWriter>(
+/// well (`write`: the concrete-type call `b.write_into(buf)`); what it wrote is received like
+/// every other parser input: copied to the start of the receive buffer.
+fn round_trip(
     out: &mut Out,
     rx: &mut Long,
     tx: &mut Long,
     rt: Option<Kind>,
-    size: &Option<Result<usize, rtcp_types::RtcpWriteError>>,
-    t: &T,
+    size: &Option<Result<usize, RtcpWriteError>>,
+    write: WriteFn,
 ) {
     let (Some(kind), Some(Ok(n))) = (rt, size) else {
         return;
     };
     let buf = tx.prefix(*n);
     buf.fill(0xa5);
-    match guard(|| t.write_into(&mut *buf)) {
+    match guard(|| write(&mut *buf)) {
         None => out.kv("rt", "res", "panic-write"),
         Some(Err(e)) => out.kv("rt", "res", &format!("write-err:{}", werr(&e))),
         Some(Ok(m)) => match buf.get(..m) {
@@ -676,13 +819,13 @@ fn round_trip<T: RtcpPacketWriter>(
     }
 }
 
-/// Hands the concrete builder on as a trait object (its methods are still the crate's own:
-/// the vtable of the crate's type).
-struct WithDyn<'f, 'r>(&'f mut dyn FnMut(&(dyn RtcpPacketWriter + 'r)));
+/// Hands the concrete builder on as a `dyn Concrete` (its vtable leads to the per-type bodies
+/// of `impl_concrete!`: method-call syntax on the crate's own type).
+struct WithDyn<'f, 'r>(&'f mut dyn FnMut(&(dyn Concrete + 'r)));
 
 impl<'f, 'r> Visitor<'r> for WithDyn<'f, 'r> {
     type Out = ();
-    fn visit<T: RtcpPacketWriter + 'r>(self, t: T) {
+    fn visit<T: Concrete + 'r>(self, t: T) {
         (self.0)(&t)
     }
 }
@@ -697,7 +840,8 @@ fn usize_res(r: &Option<usize>) -> String {
 /// `(interleave A B)` (PROTOCOL.md §4.5): both builders exist before anything is asked of them;
 /// `a.calculate_size()`, `b.calculate_size()`, then `a.write_into_unchecked(bufA)`,
 /// `b.write_into_unchecked(bufB)` with nothing in between, on two disjoint regions of the
-/// long-lived output buffer.
+/// long-lived output buffer (all four with method-call syntax on the concrete builder types:
+/// `Concrete`).
 pub fn run_interleave(out: &mut Out, io: &mut Bufs, a: &B, b: &B) {
     let mut arena = Vec::new();
     collect_fcis(a, &mut arena);
@@ -716,9 +860,9 @@ pub fn run_interleave(out: &mut Out, io: &mut Bufs, a: &B, b: &B) {
     );
 }
 
-fn interleave(out: &mut Out, tx: &mut Long, a: &dyn RtcpPacketWriter, b: &dyn RtcpPacketWriter) {
-    let sa = guard(|| a.calculate_size());
-    let sb = guard(|| b.calculate_size());
+fn interleave(out: &mut Out, tx: &mut Long, a: &dyn Concrete, b: &dyn Concrete) {
+    let sa = guard(|| a.c_size());
+    let sb = guard(|| b.c_size());
     out.kv("a", "size", &wres(&sa));
     out.kv("b", "size", &wres(&sb));
     let (Some(Ok(na)), Some(Ok(nb))) = (sa, sb) else {
@@ -727,8 +871,8 @@ fn interleave(out: &mut Out, tx: &mut Long, a: &dyn RtcpPacketWriter, b: &dyn Rt
     let both = tx.prefix(na + nb);
     both.fill(0xee);
     let (buf_a, buf_b) = both.split_at_mut(na);
-    let ra = guard(|| a.write_into_unchecked(&mut *buf_a));
-    let rb = guard(|| b.write_into_unchecked(&mut *buf_b));
+    let ra = guard(|| a.c_unchecked(&mut *buf_a));
+    let rb = guard(|| b.c_unchecked(&mut *buf_b));
     out.kv("a", "res", &usize_res(&ra));
     if ra.is_some() {
         out.kv("a", "buf", &hex(buf_a));
@@ -759,11 +903,11 @@ fn run_build_opt(
         // not `RtcpPacketWriter`s: only the inherent `write_into` is public
         B::Chunk(ch) => {
             let cb = mk_chunk(ch);
-            write_keys(out, &mut io.tx, bufs, |buf| cb.write_into(buf));
+            write_keys(out, &mut io.tx, bufs, &|buf| cb.write_into(buf), None);
         }
         B::Item(it) => {
             let ib = mk_item(it);
-            write_keys(out, &mut io.tx, bufs, |buf| ib.write_into(buf));
+            write_keys(out, &mut io.tx, bufs, &|buf| ib.write_into(buf), None);
         }
         _ => {
             let mut arena = Vec::new();
